@@ -122,6 +122,8 @@ class ExprMixin(object):
             return self.read_path(fr.alias[n])
         if n in fr.locals:
             return fr.locals[n]
+        if n == "yielded" and fr.yielded is not None:
+            return fr.yielded
         if n == "True":
             return vbool(True)
         if n == "False":
@@ -440,8 +442,34 @@ class ExprMixin(object):
         s = z3.simplify(v.t)
         return s.as_long() if z3.is_int_value(s) else None
 
+    def const_int_pc(self, v):
+        """Integer value of v if the path condition forces a unique value (e.g. a field fixed by the
+        class invariant); None otherwise."""
+        k = self.const_int(v)
+        if k is not None or self.spec_mode:
+            return k
+        f = self.ctx.feas
+        if f.check() != z3.sat:
+            return None
+        val = f.model().eval(v.t, model_completion=True)
+        if not z3.is_int_value(val):
+            return None
+        f.push()
+        f.add(v.t != val)
+        r = f.check()
+        f.pop()
+        return val.as_long() if r == z3.unsat else None
+
     def bitop(self, op, a, b, node):
         ka, kb = self.const_int(a), self.const_int(b)
+        if kb is None and op in ("RShift", "LShift"):
+            kb = self.const_int_pc(b)
+            if kb is not None:
+                b = vint(kb)
+        if kb is None and op == "BitAnd":
+            kb = self.const_int_pc(b)
+            if kb is not None:
+                b = vint(kb)
         if op == "RShift" and kb is not None and kb >= 0:
             return vint(a.t / z3.IntVal(2 ** kb))
         if op == "LShift" and kb is not None and kb >= 0:
@@ -452,31 +480,16 @@ class ExprMixin(object):
             return vint(a.t % z3.IntVal(kb + 1))
         if op == "BitAnd" and ka is not None and ka >= 0 and (ka & (ka + 1)) == 0:
             return vint(b.t % z3.IntVal(ka + 1))
-        # general case: both operands proved to lie in the unsigned 62-bit window
-        lim = z3.IntVal(2 ** 62)
+        # general case: uninterpreted operators on non-negative integers, characterised bit-wise by
+        # the axioms of bitops.py (themselves checked in the bit-vector theory by the self-test)
+        from . import bitops
         for x, nm in ((a, "l"), (b, "r")):
-            ok = z3.And(x.t >= 0, x.t < lim)
-            if op in ("LShift", "RShift") and nm == "r":
-                ok = z3.And(x.t >= 0, x.t < 62)
             if not self.spec_mode:
-                self.ctx.oblige(ok, "%s/safety:bv-window-%s#%d" % (self.ctx.fnname, nm, self.site(node)),
+                self.ctx.oblige(x.t >= 0, "%s/safety:bitop-nonneg-%s#%d" % (self.ctx.fnname, nm, self.site(node)),
                                 "safety", getattr(node, "lineno", 0))
-        x, y = z3.Int2BV(a.t, BVW), z3.Int2BV(b.t, BVW)
-        if op == "BitAnd":
-            r = x & y
-        elif op == "BitOr":
-            r = x | y
-        elif op == "BitXor":
-            r = x ^ y
-        elif op == "LShift":
-            r = x << y
-            if not self.spec_mode:
-                self.ctx.oblige(z3.ULT(x, z3.BitVecVal(1, BVW) << (z3.BitVecVal(62, BVW) - y)),
-                                "%s/safety:bv-shl-overflow#%d" % (self.ctx.fnname, self.site(node)),
-                                "safety", getattr(node, "lineno", 0))
-        else:
-            r = z3.LShR(x, y)
-        return vint(z3.BV2Int(r, False))
+        bitops.ensure_axioms(self.ctx)
+        self.assumptions.add(bitops.AXIOM_TEXT)
+        return vint(bitops.OPS[op](a.t, b.t))
 
     def unwrap(self, v, node):
         if isinstance(v.ty, TOpt):
@@ -871,10 +884,11 @@ class ExprMixin(object):
         i = z3.Int("cci!%d" % self.bound_counter())
         la, lb = list_len(a), list_len(b)
         self.ctx.assume(list_len(res) == la + lb)
-        self.ctx.assume(z3.ForAll([i], z3.Implies(z3.And(0 <= i, i < la),
-                                                  z3.Select(list_arr(res), i) == z3.Select(list_arr(a), i))))
-        self.ctx.assume(z3.ForAll([i], z3.Implies(z3.And(0 <= i, i < lb),
-                                                  z3.Select(list_arr(res), la + i) == z3.Select(list_arr(b), i))))
+        ri = z3.Select(list_arr(res), i)
+        self.ctx.assume(z3.ForAll([i], z3.Implies(z3.And(0 <= i, i < la + lb),
+                                                  ri == z3.If(i < la, z3.Select(list_arr(a), i),
+                                                              z3.Select(list_arr(b), i - la))),
+                                  patterns=[ri]))
         return res
 
     def list_repeat(self, a, n):
